@@ -167,6 +167,19 @@ type Run struct {
 	encKey     string
 	diskPlain  [][]byte
 	PlainHits  []string
+	plainWatch bool
+	OpenErr    string
+	DiskEnd    map[string][]byte
+	sconn      driver.Conn
+	SHists     []*SHist
+	Inconclusive int
+	Corrupted  []corruptRec
+}
+
+type corruptRec struct {
+	Path string
+	Key  string
+	Seq  uint64
 }
 
 // ---------------- the sim:// store driver ----------------
@@ -526,7 +539,7 @@ func (h diskHook) DiskOp(op *simos.Op) simos.Decision {
 		dec.N = k
 		r.fired("disk." + strings.ToLower(f.Errno) + "@" + op.Kind)
 		info += fmt.Sprintf(" FAULT %s after %d", f.Errno, k)
-	} else if op.Kind == "read" && r.Scn.RChunk > 0 && op.N > r.Scn.RChunk {
+	} else if op.Kind == "read" && r.Scn.RChunk > 0 && op.N > r.Scn.RChunk && n < 48 {
 		dec.N = r.Scn.RChunk
 		r.mu.Lock()
 		r.Faults["disk.short-read"]++
@@ -602,6 +615,8 @@ func (l *lockedWriter) Write(p []byte) (int, error) {
 // ---------------- running a tsim scenario ----------------
 
 const drainSpan = 20 * time.Minute
+
+const maxVirtual = 190 * 365 * 24 * time.Hour
 
 func newRun(scn *Scenario) *Run {
 	r := &Run{
@@ -685,7 +700,7 @@ func RunTsim(scn *Scenario) *Run {
 	// goroutine census before unwinding: whatever the SUT still has running
 	// now has outlived every origin call and every pending timer.
 	for _, st := range kit.BubbleGoroutines() {
-		if strings.Contains(st, "engine.(*Run).client") || strings.Contains(st, "engine.RunTsim") {
+		if strings.Contains(st, "engine.(*Run).client") || strings.Contains(st, "engine.RunTsim") || !hasSUTFrame(st) {
 			continue
 		}
 		r.LeakStacks = append(r.LeakStacks, st)
@@ -782,7 +797,11 @@ func (r *Run) client(ci int, wg *sync.WaitGroup) {
 		op := &cl.Ops[oi]
 		g.SetOp(oi)
 		if op.ThinkNs > 0 {
-			r.Sim.Sleep(time.Duration(op.ThinkNs), nil, "think")
+			think := time.Duration(op.ThinkNs)
+			if r.Sim.Now()+think > maxVirtual {
+				think = time.Second // the bubble clock ends in 2262; stay well below
+			}
+			r.Sim.Sleep(think, nil, "think")
 		} else {
 			r.Sim.Yield("op")
 		}
@@ -1007,4 +1026,14 @@ func errnoOf(name string) error {
 		return syscall.EACCES
 	}
 	return syscall.EIO
+}
+
+// hasSUTFrame: does the goroutine's stack contain a function of the repository itself?
+func hasSUTFrame(st string) bool {
+	for _, ln := range strings.Split(st, "\n") {
+		if strings.HasPrefix(ln, "github.com/bartventer/httpcache") && !strings.Contains(ln, "/verifsim/") {
+			return true
+		}
+	}
+	return false
 }
